@@ -292,6 +292,78 @@ def run_debug_equiv(ctx, rulekind):
                 detail={'rule': rulekind})
 
 
+def run_reuse(ctx, rep_kind, change):
+    """One enforcer, one credentials object (RequestContext / its policy
+    values / a dict): enforce, change the object in place, enforce again.
+    Both calls must decide as the check does for the credentials given at
+    that moment, with do_raise off and on."""
+    from oslo_context import context
+    from oslo_policy import policy
+    common.set_ctx(ctx)
+    enf = common.mk_enforcer(rules=policy.Rules.from_dict(
+        {'p': 'role:admin and project_id:%(project_id)s'}))
+    first_admin = bool(ctx.bool('first_admin'))
+    second_admin = bool(ctx.bool('second_admin'))
+    target = {'project_id': 'p1'}
+
+    def roles(admin):
+        return ['admin', 'member'] if admin else ['member']
+    if rep_kind == 'context':
+        creds = context.RequestContext(user_id='u', project_id='p1',
+                                       roles=roles(first_admin))
+    elif rep_kind == 'dict':
+        creds = {'user_id': 'u', 'project_id': 'p1',
+                 'roles': roles(first_admin)}
+    else:
+        creds = context.RequestContext(
+            user_id='u', project_id='p1',
+            roles=roles(first_admin)).to_policy_values()
+
+    def both():
+        off = bool(enf.enforce('p', target, creds))
+        try:
+            on = bool(enf.enforce('p', target, creds, True))
+        except policy.PolicyNotAuthorized:
+            on = 'PolicyNotAuthorized'
+        return [off, on]
+    one = both()
+    want1 = [True, True] if first_admin else [False, 'PolicyNotAuthorized']
+    ctx.require(one == want1, 'reuse:first', detail={'rep': rep_kind,
+                                                      'got': one})
+    if change == 'assign-roles':
+        if rep_kind == 'context':
+            creds.roles = roles(second_admin)
+        else:
+            creds['roles'] = roles(second_admin)
+    elif change == 'mutate-list':
+        lst = creds.roles if rep_kind == 'context' else creds['roles']
+        del lst[:]
+        lst.extend(roles(second_admin))
+    else:
+        if rep_kind == 'context':
+            creds.project_id = 'p1' if second_admin else 'p2'
+        else:
+            creds['project_id'] = 'p1' if second_admin else 'p2'
+        second_admin = second_admin and first_admin
+    two = both()
+    want2 = [True, True] if second_admin else [False, 'PolicyNotAuthorized']
+    ctx.cover('reuse:' + rep_kind)
+    ctx.observe('decisions', [one, two])
+    ctx.require(two == want2, 'reuse:second-call-decided-on-stale-'
+                'credentials', detail={'rep': rep_kind, 'change': change,
+                                       'first_admin': first_admin,
+                                       'got': two, 'want': want2})
+
+
+def cubes_reuse(tier, seed):
+    # item assignment on the to_policy_values() mapping is shadowed by the
+    # context's own data (oslo.context), so only in-place list edits apply
+    return [{'rep_kind': r, 'change': c}
+            for r in ('context', 'dict', 'policy-values')
+            for c in ('assign-roles', 'mutate-list', 'assign-project')
+            if not (r == 'policy-values' and c.startswith('assign'))]
+
+
 def cubes_debug(tier, seed):
     return [{'rulekind': rk} for rk in RULEKINDS]
 
@@ -299,9 +371,10 @@ def cubes_debug(tier, seed):
 HARNESSES = {
     'modes': {'fn': run_modes, 'cubes': cubes_modes},
     'debug': {'fn': run_debug_equiv, 'cubes': cubes_debug},
+    'reuse': {'fn': run_reuse, 'cubes': cubes_reuse},
 }
 REQUIRED_COVER = ['modes:' + r for r in RULEKINDS] + [
-    'modes:scope-mismatch', 'debug-equiv']
+    'modes:scope-mismatch', 'debug-equiv', 'reuse:context']
 
 
 def evidence(tier):
